@@ -371,6 +371,17 @@ CHILDSETS = [
     [{"stack": {"frames": [], "root": "STUBLEAF", "leaf": True}}, {"stack": {"frames": [], "root": "STUBERR", "error": True}}],
     [{"id": 28, "description": True, "inner": {"frames": [], "leaf": True, "error": True, "root": "CHILDINNER2"}}],
     [{"stack": {"frames": [{"k": 8}], "root": "TASKMULTIERR", "error": "multi"}}, {"id": 29, "description": True}],
+    # child contexts that have children of their own and are followed by a sibling (order of a flat projection matters)
+    [{"id": 30, "description": True, "children": [{"id": 31, "description": True},
+                                                   {"id": 32, "description": True, "children": [{"id": 33, "description": True}]}]},
+     {"id": 34, "description": True}],
+    # real `with` contexts (with a start line) in frames that sit below a child context: in its inner stack, in a task
+    # stack under it, and under a grandchild context
+    [{"id": 35, "description": True,
+      "inner": {"frames": [{"k": 11, "contexts": [{"id": 36, "start_line": True, "obj": True}]}], "root": "DEEPINNER"},
+      "children": [{"stack": {"frames": [{"k": 10, "contexts": [{"id": 37, "start_line": True}]}], "root": "DEEPTASK2"}},
+                   {"id": 38, "description": True, "start_line": True,
+                    "inner": {"frames": [{"k": 9, "contexts": [{"id": 39, "start_line": True, "varname": True}]}], "root": "DEEPINNER2"}}]}],
 ]
 
 
